@@ -76,7 +76,7 @@ func seqProfile(prop string, cas int, tier string) Profile {
 		p.DeadProbe = true
 		p.RestartEvery = 12
 		p.WalkEvery = 50
-		if tier == "thorough" && cas%20 == 7 {
+		if tier == "thorough" && cas%100 == 7 {
 			p.InodeExhaust = true
 			p.WalkEvery = 0
 		}
@@ -91,9 +91,11 @@ func seqProfile(prop string, cas int, tier string) Profile {
 		p.W[OpSymlink] *= 3
 		p.W[OpRename] *= 2
 		p.Big = cas%4 == 3 // oversized requests the journal rejects
-		if tier == "thorough" && cas%20 == 9 {
+		if tier == "thorough" && cas%200 == 9 {
+			// a nearly exhausted inode table (32 k objects: every full comparison is slow, so only a few cases)
 			p.InodeExhaust = true
 			p.DiskBlocks = 6000
+			p.NOps = 60
 		}
 	case "C10":
 		p.NOps = 120
